@@ -1449,6 +1449,8 @@ pub fn run_hist_func(ctx: &Ctx, id: &str) {
 
 pub fn replay(id: &str, sub: &str, case: &serde_json::Value) -> Option<Result<Outcome, String>> {
     match (id, sub) {
+        ("C18", "large-store") => Some(replay_prop(&C18BigStore, case)),
+        ("C20", "gauges-in-real-time") => Some(replay_prop(&C20RealTime, case)),
         ("C01", "ledger") | ("C09", "keeps-address") | ("C10", "lease-time") | ("C13", "frame") => {
             Some(replay_prop(&hist_prop(id), case))
         }
@@ -1461,8 +1463,141 @@ pub fn replay(id: &str, sub: &str, case: &serde_json::Value) -> Option<Result<Ou
     }
 }
 
+/// C18 on stores of thousands of rows: a lease file in the current layout holding `rows` rows of
+/// which `expired_pct` percent have run out (hours to months ago), the rest still running; it is
+/// opened the way the server opens it, closed, opened again.  rows(open(D)) = rows(D), read by the
+/// harness's own connection before and after, and the listing the API is built from shows them
+/// all.
+#[derive(Clone, Debug, Serialize, Deserialize, PartialEq)]
+pub struct BigStoreCase {
+    pub rows: u32,
+    pub expired_pct: u8,
+    pub seed: u32,
+}
+
+pub struct C18BigStore;
+
+impl Prop for C18BigStore {
+    type Case = BigStoreCase;
+    fn sub(&self) -> &'static str {
+        "large-store"
+    }
+    fn check(&self, c: &BigStoreCase) -> Outcome {
+        let mut out = Outcome::default();
+        out.nontrivial = c.rows > 1;
+        out.class(if c.rows > 1000 { "more-than-1000-rows" } else { "up-to-1000-rows" });
+        let path = scratch_path("c18big");
+        let cleanup = |p: &std::path::Path| {
+            let _ = std::fs::remove_file(p);
+            let _ = std::fs::remove_file(format!("{}-journal", p.display()));
+        };
+        // the real code creates the schema
+        match erbium::dhcp::pool::Pool::verif_open(&path) {
+            Ok(p) => drop(p),
+            Err(e) => {
+                out.fail("C18:fresh-database-does-not-open", e.to_string());
+                cleanup(&path);
+                return out;
+            }
+        }
+        let now = wall_now() as i64;
+        {
+            let conn = match rusqlite::Connection::open(&path) {
+                Ok(c) => c,
+                Err(e) => {
+                    out.fail("rig-error", e.to_string());
+                    cleanup(&path);
+                    return out;
+                }
+            };
+            let _ = conn.execute_batch("BEGIN");
+            let mut s = c.seed as u64 | 1;
+            for i in 0..c.rows {
+                s = s.wrapping_mul(6364136223846793005).wrapping_add(1442695040888963407);
+                let r = (s >> 33) as i64;
+                let expired = (r % 100) < c.expired_pct as i64;
+                let len = 300 + (r / 100) % 86100;
+                let (start, expiry) = if expired {
+                    let ago = 1 + (r / 7) % [3600i64, 86400, 2_600_000, 31_000_000][(r as usize / 3) % 4];
+                    (now - ago - len, now - ago)
+                } else {
+                    let left = 1 + (r / 11) % len;
+                    (now + left - len, now + left)
+                };
+                let ip = Ipv4Addr::from(0x0a14_0000u32 + i);
+                let id = vec![0xbb, (i >> 16) as u8, (i >> 8) as u8, i as u8];
+                let opts: Vec<u8> = vec![53, 1, 3, 12, 2, b'h', (i % 251) as u8];
+                if let Err(e) = conn.execute(
+                    "INSERT INTO leases (address, clientid, start, expiry, options) VALUES (?1, ?2, ?3, ?4, ?5)",
+                    rusqlite::params![ip.to_string(), id, start, expiry, opts],
+                ) {
+                    out.fail("rig-error", format!("insert: {}", e));
+                    cleanup(&path);
+                    return out;
+                }
+            }
+            let _ = conn.execute_batch("COMMIT");
+        }
+        let before = match rows_sql(&path) {
+            Ok(r) => r,
+            Err(e) => {
+                out.fail("rig-error", e);
+                cleanup(&path);
+                return out;
+            }
+        };
+        for round in 0..2 {
+            let listing = match erbium::dhcp::pool::Pool::verif_open(&path) {
+                Ok(mut p) => listing_of(&mut p),
+                Err(e) => {
+                    out.fail("C18:database-does-not-open", format!("{} rows, open {}: {}", c.rows, round, e));
+                    cleanup(&path);
+                    return out;
+                }
+            };
+            let after = rows_sql(&path).unwrap_or_default();
+            if after != before {
+                let lost = before.iter().filter(|r| !after.contains(r)).count();
+                out.fail(
+                    "C18:rows-changed-by-open",
+                    format!("{} rows ({} % expired) before open {}, {} after; {} of the rows are gone or altered, e.g. {:?}", before.len(), c.expired_pct, round, after.len(), lost, before.iter().find(|r| !after.contains(r))),
+                );
+                break;
+            }
+            match listing {
+                Ok(l) if l == before => {}
+                Ok(l) => {
+                    out.fail("C18:listing-differs-from-file", format!("{} rows in the file, {} in the listing", before.len(), l.len()));
+                    break;
+                }
+                Err(e) => {
+                    out.fail("C18:listing-fails", e);
+                    break;
+                }
+            }
+        }
+        cleanup(&path);
+        out
+    }
+}
+
+pub fn run_c18_big_stores(ctx: &Ctx) {
+    let sizes: Vec<u32> = if ctx.tier == Tier::Quick { vec![1, 999, 1000, 1001, 1100, 2500] } else { vec![1, 255, 256, 999, 1000, 1001, 1024, 1100, 2500, 4097, 10000, 65537] };
+    let mut cases = vec![];
+    for (i, rows) in sizes.iter().enumerate() {
+        for pct in [100u8, 90, 50, 0] {
+            cases.push(BigStoreCase { rows: *rows, expired_pct: pct, seed: (ctx.seed as u32).wrapping_add(i as u32 * 4 + pct as u32) });
+        }
+    }
+    run_list(ctx, &C18BigStore, cases);
+}
+
 pub fn run_c18_func(ctx: &Ctx) {
     run_list(ctx, &C18Reopen, long_lived_histories());
+    if !ctx.violations.lock().unwrap().is_empty() {
+        return;
+    }
+    run_c18_big_stores(ctx);
     if !ctx.violations.lock().unwrap().is_empty() {
         return;
     }
@@ -1472,7 +1607,130 @@ pub fn run_c18_func(ctx: &Ctx) {
     run_prop(ctx, &C18OldSchema, || olddb_strategy(ctx.tier.pick(40, 200)), n2, workers());
 }
 
+/// C20, the clock moving by itself: leases of 1..3 s are written through the pool's own
+/// allocation call, then nothing is written any more while real time carries each of them
+/// over its expiry; every 300 ms the gauges are read and compared with the count of listed rows
+/// on either side of the clock (samples that straddle a change of second are skipped).
+#[derive(Clone, Debug, Serialize, Deserialize, PartialEq)]
+pub struct RealTimeCase {
+    pub lease_secs: Vec<u8>,
+    pub file_backed: bool,
+}
+
+pub struct C20RealTime;
+
+impl Prop for C20RealTime {
+    type Case = RealTimeCase;
+    fn sub(&self) -> &'static str {
+        "gauges-in-real-time"
+    }
+    fn check(&self, c: &RealTimeCase) -> Outcome {
+        let mut out = Outcome::default();
+        let path = scratch_path("c20rt");
+        let mut pool = match if c.file_backed { erbium::dhcp::pool::Pool::verif_open(&path) } else { erbium::dhcp::pool::Pool::new_in_memory() } {
+            Ok(p) => p,
+            Err(e) => {
+                out.fail("rig-error", e.to_string());
+                return out;
+            }
+        };
+        let addrs: erbium::dhcp::pool::PoolAddresses = (1..=c.lease_secs.len() as u8 + 2).map(|i| Ipv4Addr::new(10, 9, 1, i)).collect();
+        for (i, secs) in c.lease_secs.iter().enumerate() {
+            let d = std::time::Duration::from_secs((*secs).clamp(1, 5) as u64);
+            if let Err(e) = pool.allocate_address(&[0xcc, i as u8], None, &addrs, d, d, &[53, 1, 1]) {
+                out.fail("rig-error", format!("allocate: {}", e));
+                return out;
+            }
+        }
+        let longest = c.lease_secs.iter().copied().max().unwrap_or(1).clamp(1, 5) as u64;
+        let t0 = std::time::Instant::now();
+        let mut seen_active = false;
+        let mut seen_expired_after_active = false;
+        while t0.elapsed() < std::time::Duration::from_millis(longest * 1000 + 1600) {
+            let w = wall_now() as i64;
+            let rows = listing_of(&mut pool);
+            let gauges = pool.get_pool_metrics();
+            if wall_now() as i64 == w {
+                match (rows, gauges) {
+                    (Ok(rows), Ok((active, expired))) => {
+                        let want_active = rows.iter().filter(|r| r.expire as i64 > w).count() as u32;
+                        let want_expired = rows.len() as u32 - want_active;
+                        if want_active > 0 {
+                            seen_active = true;
+                        } else if seen_active {
+                            seen_expired_after_active = true;
+                        }
+                        if (active, expired) != (want_active, want_expired) {
+                            out.nontrivial = true;
+                            out.fail(
+                                "C20:gauge-mismatch:clock-moved-without-a-write",
+                                format!(
+                                    "{:.1} s after the last write: gauges say {} active / {} expired, the listing has {} / {} at second {} (rows expire at {:?})",
+                                    t0.elapsed().as_secs_f64(),
+                                    active,
+                                    expired,
+                                    want_active,
+                                    want_expired,
+                                    w,
+                                    rows.iter().map(|r| r.expire).collect::<Vec<_>>()
+                                ),
+                            );
+                            break;
+                        }
+                    }
+                    (Err(e), _) => {
+                        out.fail("C20:listing-error", e);
+                        break;
+                    }
+                    (_, Err(e)) => {
+                        out.fail("C20:gauges-error", e.to_string());
+                        break;
+                    }
+                }
+            }
+            std::thread::sleep(std::time::Duration::from_millis(300));
+        }
+        // non-trivial: a lease was seen running and, later, run out, with no write in between
+        if seen_expired_after_active {
+            out.nontrivial = true;
+            out.class("lease-ran-out-while-nothing-was-written");
+        }
+        drop(pool);
+        let _ = std::fs::remove_file(&path);
+        let _ = std::fs::remove_file(format!("{}-journal", path.display()));
+        out
+    }
+}
+
+pub fn run_c20_real_time(ctx: &Ctx) {
+    let mut cases = vec![
+        RealTimeCase { lease_secs: vec![1, 2, 3], file_backed: true },
+        RealTimeCase { lease_secs: vec![2], file_backed: false },
+    ];
+    if ctx.tier == Tier::Thorough {
+        for k in 0..6u8 {
+            cases.push(RealTimeCase { lease_secs: (0..=k).map(|i| 1 + (i * 2 + k) % 4).collect(), file_backed: k % 2 == 0 });
+        }
+    }
+    // the cases only wait: run them side by side
+    let outs: Vec<(RealTimeCase, Outcome)> = std::thread::scope(|s| {
+        let hs: Vec<_> = cases.iter().map(|c| s.spawn(move || (c.clone(), C20RealTime.check(c)))).collect();
+        hs.into_iter().map(|h| h.join().unwrap()).collect()
+    });
+    for (case, out) in outs {
+        ctx.record("gauges-in-real-time", &case, &out);
+        if let Some(f) = out.fail {
+            ctx.violation("gauges-in-real-time", &f, &case);
+            return;
+        }
+    }
+}
+
 pub fn run_c20_func(ctx: &Ctx) {
+    run_c20_real_time(ctx);
+    if !ctx.violations.lock().unwrap().is_empty() {
+        return;
+    }
     let n = ctx.tier.pick(16_000u64, 400_000u64);
     run_prop(ctx, &C20Prop, || history_strategy(profile_for("C20", ctx.tier, false)), n * 3 / 4, workers());
     // file backed: the listing is compared with the rows our own connection reads from the file
